@@ -23,7 +23,7 @@ def main():
         i = args.index("--jobs"); jobs = int(args[i + 1]); del args[i:i + 2]
     if "--keep-pool" in args:
         args.remove("--keep-pool"); keep = True
-    seeds = args or sorted(d for d in os.listdir(V + "/seeded") if os.path.isdir(V + "/seeded/" + d))
+    seeds = args or sorted(d for d in os.listdir(V + "/seeded") if os.path.isdir(V + "/seeded/" + d) and d != "retired")
     path = V + "/seeded/CATCH.json"
     res = json.load(open(path)) if os.path.exists(path) else {}
     pool = Pool(min(jobs, len(seeds)))
